@@ -30,7 +30,71 @@ import (
 	quic "github.com/refraction-networking/uquic"
 	"github.com/refraction-networking/uquic/internal/verifharness/e2e"
 	"github.com/refraction-networking/uquic/internal/verifharness/vh"
+	"github.com/refraction-networking/uquic/qlog"
+	"github.com/refraction-networking/uquic/qlogwriter"
 )
+
+// sentLog records, per endpoint, every packet sent with its virtual send instant and whether it is
+// ack-eliciting: 0 = not (ACK / CONNECTION_CLOSE only), 1 = only through STREAM frames, 2 = through a control frame.
+type sentPkt struct {
+	at   int64
+	kind int
+}
+
+type sentLog struct {
+	mu sync.Mutex
+	l  []sentPkt
+}
+
+func (sl *sentLog) firstAfter(after int64, minKind int) (int64, bool) {
+	sl.mu.Lock()
+	defer sl.mu.Unlock()
+	for _, x := range sl.l {
+		if x.at > after && x.kind >= minKind {
+			return x.at, true
+		}
+	}
+	return 0, false
+}
+
+type dbgRec struct {
+	side string
+	t0   int64
+	log  *sentLog
+}
+
+func (r dbgRec) RecordEvent(ev qlogwriter.Event) {
+	if ps, ok := ev.(qlog.PacketSent); ok {
+		var fr []string
+		kind := 0
+		for _, f := range ps.Frames {
+			tn := fmt.Sprintf("%T", f.Frame)
+			fr = append(fr, tn)
+			switch {
+			case strings.HasSuffix(tn, ".AckFrame"), strings.HasSuffix(tn, ".ConnectionCloseFrame"):
+			case strings.HasSuffix(tn, "qlog.StreamFrame"):
+				if kind < 1 {
+					kind = 1
+				}
+			default:
+				kind = 2
+			}
+		}
+		now := quic.VerifMonoNow()
+		r.log.mu.Lock()
+		r.log.l = append(r.log.l, sentPkt{now, kind})
+		r.log.mu.Unlock()
+		if os.Getenv("VH_QLOG") != "" {
+			fmt.Fprintf(os.Stderr, "qlog %s t=%dus sent %v %v\n", r.side, (now-r.t0)/1000, ps.Header.PacketType, fr)
+		}
+	}
+}
+func (r dbgRec) Close() error { return nil }
+
+type dbgTrace struct{ r dbgRec }
+
+func (t dbgTrace) AddProducer() qlogwriter.Recorder { return t.r }
+func (t dbgTrace) SupportsSchemas(string) bool       { return true }
 
 var theT *testing.T
 
@@ -375,6 +439,12 @@ func runScenario(p params, res *result) {
 		cconf.HandshakeIdleTimeout = p.idle // reuse the idle parameter as the handshake idle timeout
 		sconf.HandshakeIdleTimeout = p.sidle
 	}
+	clog, slog := &sentLog{}, &sentLog{}
+	{
+		t0 := quic.VerifMonoNow()
+		cconf.Tracer = func(context.Context, bool, quic.ConnectionID) qlogwriter.Trace { return dbgTrace{dbgRec{"c", t0, clog}} }
+		sconf.Tracer = func(context.Context, bool, quic.ConnectionID) qlogwriter.Trace { return dbgTrace{dbgRec{"s", t0, slog}} }
+	}
 	env, err := e2e.Start(e2e.Setup{RTT: p.rtt, ClientConf: cconf})
 	if err != nil {
 		res.add("setup", "fail:"+err.Error())
@@ -404,6 +474,23 @@ func runScenario(p params, res *result) {
 	bg, bgCancel := context.WithCancel(context.Background())
 	defer bgCancel()
 	t0 := quic.VerifMonoNow()
+	// the scenario's datagram filter can be replaced while the network is running
+	var tapMu sync.Mutex
+	var scnTap func(d e2e.Dir, idx int, b []byte) bool
+	env.Net.Tap = func(d e2e.Dir, idx int, b []byte) bool {
+		tapMu.Lock()
+		f := scnTap
+		tapMu.Unlock()
+		if f != nil {
+			return f(d, idx, b)
+		}
+		return true
+	}
+	setTap := func(f func(d e2e.Dir, idx int, b []byte) bool) {
+		tapMu.Lock()
+		scnTap = f
+		tapMu.Unlock()
+	}
 	ms := func(mono int64) string { return strconv.FormatInt((mono-t0)/1e3, 10) } // µs since scenario start
 
 	cl := &side{name: "c", calls: map[string]*callRes{}}
@@ -429,7 +516,7 @@ func runScenario(p params, res *result) {
 		env.Net.DropAll[e2e.ToClient] = true
 	case "hsstall":
 		// let the first server datagram through (ServerHello + part of the flight), nothing after it
-		env.Net.Tap = func(d e2e.Dir, idx int, b []byte) bool { return !(d == e2e.ToClient && idx >= 1) }
+		setTap(func(d e2e.Dir, idx int, b []byte) bool { return !(d == e2e.ToClient && idx >= 1) })
 	}
 
 	// client: dial
@@ -596,7 +683,7 @@ func runScenario(p params, res *result) {
 		var mu sync.Mutex
 		left := p.drop
 		armed := p.cause == "capp" || p.cause == "sapp"
-		env.Net.Tap = func(d e2e.Dir, idx int, b []byte) bool {
+		setTap(func(d e2e.Dir, idx int, b []byte) bool {
 			mu.Lock()
 			defer mu.Unlock()
 			// for a fatal error the closing datagram is the victim's answer: arm after the offending frame left
@@ -609,7 +696,7 @@ func runScenario(p params, res *result) {
 				return false
 			}
 			return true
-		}
+		})
 		// the peer keeps sending, so that the stand-in retransmits the CONNECTION_CLOSE
 		if peer.conn != nil {
 			pk := peer
@@ -700,7 +787,25 @@ func runScenario(p params, res *result) {
 		calls, maxdt := fmtCalls(s)
 		res.add(s.name+".calls", calls)
 		res.add(s.name+".dt", strconv.FormatInt(maxdt, 10))
-		res.add(s.name+".idle", idleFields(s.conn.VerifIdleState(), at, t0))
+		ist := s.conn.VerifIdleState()
+		res.add(s.name+".idle", idleFields(ist, at, t0))
+		// ghost for the idle start, from the endpoint's own sent-packet log: d1 = the first ack-eliciting
+		// packet sent after the last packet was received, d1c = the first one that is ack-eliciting through a
+		// control frame (not only STREAM frames)
+		lg := clog
+		if s == sv {
+			lg = slog
+		}
+		for _, it := range []struct {
+			key string
+			min int
+		}{{".d1", 1}, {".d1c", 2}} {
+			if at, ok := lg.firstAfter(ist.LastRcv, it.min); ok {
+				res.add(s.name+it.key, strconv.FormatInt(at-t0, 10))
+			} else {
+				res.add(s.name+it.key, "-")
+			}
+		}
 	}
 	for _, s := range []*side{cl, sv} {
 		if s.conn != nil && s.isDone() {
